@@ -545,7 +545,7 @@ func TestC02(t *testing.T) {
 	if cold.Scenario() != "" {
 		t.Skip("cold-start child")
 	}
-	rp.RunAll(t, props()...)
+	rp.RunAll(t, append(props(), wireProps()...)...)
 }
 
 // TestColdChild (fresh child process only, see harness/cold): the first reply of every type that this process decodes
@@ -580,4 +580,4 @@ func TestColdChild(t *testing.T) {
 	}
 	cold.Done(n)
 }
-func TestReplay(t *testing.T) { rp.ReplayAll(t, props()...) }
+func TestReplay(t *testing.T) { rp.ReplayAll(t, append(props(), wireProps()...)...) }
